@@ -46,6 +46,22 @@ theorem ordinary_chars (k : String) (h : ordinaryName k = true) : (∀ c ∈ k.t
   · intro c hc; have := h c hc; simp at this; exact this.2.2.2.1
 
 /-- the pointer `/k` of an ordinary name names the top-level member `k` -/
+theorem escapeToken_ordinary (k : String) (h : ordinaryName k = true) : escapeToken k = k := by
+  obtain ⟨h1, h2⟩ := ordinary_chars k h
+  unfold escapeToken
+  have : ∀ (l : List Char), (∀ c ∈ l, c ≠ '/') → (∀ c ∈ l, c ≠ '~') →
+      l.flatMap (fun c => if c = '~' then ['~', '0'] else if c = '/' then ['~', '1'] else [c]) = l := by
+    intro l
+    induction l with
+    | nil => intros; rfl
+    | cons c cs ih =>
+      intro a b
+      have hc1 : c ≠ '/' := a c List.mem_cons_self
+      have hc2 : c ≠ '~' := b c List.mem_cons_self
+      simp [List.flatMap_cons, hc1, hc2, ih (fun x hx => a x (List.mem_cons_of_mem _ hx)) (fun x hx => b x (List.mem_cons_of_mem _ hx))]
+  rw [this k.toList h1 h2]
+  simp
+
 theorem splitPointer_ordinary (k : String) (h : ordinaryName k = true) : Lib.splitPointer ("/" ++ k) = some ([], k) := by
   obtain ⟨h1, h2⟩ := ordinary_chars k h
   have ht : ("/" ++ k).toList = '/' :: k.toList := by simp
@@ -320,11 +336,18 @@ theorem fromDocument_eq (kvs : List (String × Json)) (hok : ∀ kv ∈ kvs, Mem
     apply List.filter_congr
     intro x _
     simp [isSpecial, Bool.and_assoc]
-  have hmap : (fun (x : String × Json) => Json.obj [("op", .str "add"), ("path", .str ("/" ++ x.1)), ("value", x.2)]) = addOp := by
-    funext x; rfl
   simp only [List.nil_append]
   have hfilt' : ((sortByName kvs).filter fun (x : String × Json) => decide (¬x.1 = "publicKey" ∧ ¬x.1 = "service" ∧ ¬x.1 = "alsoKnownAs")) =
       (sortByName kvs).filter fun kv => !isSpecial kv.1 := hfilt
+  -- an ordinary name is its own pointer token
+  have hmap : ((sortByName kvs).filter fun kv => !isSpecial kv.1).map
+        (fun (x : String × Json) => Json.obj [("op", .str "add"), ("path", .str ("/" ++ escapeToken x.1)), ("value", x.2)]) =
+      ((sortByName kvs).filter fun kv => !isSpecial kv.1).map addOp := by
+    apply List.map_congr_left
+    intro x hx
+    have hmem := List.mem_filter.mp hx
+    have hord := (hS x hmem.1).other (by simpa using hmem.2)
+    simp [addOp, escapeToken_ordinary x.1 hord]
   rw [hfilt', hmap]
   split <;> simp
 
